@@ -1,7 +1,7 @@
 import OASProofs.Props.C17Akima
 import OASProofs.Props.C17Atmos
-namespace OAS.C17Akima
-open OAS OAS.Akima OAS.Generated OAS.C17Atmos
+namespace OAS.C17AtmosTable
+open OAS OAS.Akima OAS.Generated OAS.C17Atmos OAS.C17Akima
 
 /-- altitude of a generated row as a real number (the table stores `altitude + 1000 ft` as a decimal fraction) -/
 noncomputable def altOf (r : AtmosRow) : ℝ := (r.altM : ℝ) / (10 : ℝ) ^ r.altE - 1000
@@ -44,4 +44,4 @@ theorem c17_alt_column_increasing : Increasing atmosTable.length altColumn := by
     · have : a = b := by omega
       subst this; exact adj a hb
 
-end OAS.C17Akima
+end OAS.C17AtmosTable
